@@ -136,12 +136,41 @@ def gen_case(rng, tier, index):
                                "cfi": [".cfi_remember_state", []]}] + mid + [
                               {"raw": ".cfi_undefined 13",
                                "cfi": [".cfi_undefined", [13]]}] + \
-                    body[1:] + [{"k": "nop"},
-                                {"raw": ".cfi_restore_state",
-                                 "cfi": [".cfi_restore_state", []]}]
+                    body[1:] + [
+                        # sometimes the patch leaves through a jump and the
+                        # closing directive stands behind it
+                        {"k": "jmp", "t": rng.choice(g.code_labels)}
+                        if g.code_labels and rng.random() < 0.3
+                        else {"k": "nop"},
+                        {"raw": ".cfi_restore_state",
+                         "cfi": [".cfi_restore_state", []]}]
             p["cfi_kind"] = kind
     case["nproc"] = nproc
     return case
+
+
+def after_patch_with_trailing_directives(case, eid):
+    """was edit eid placed at the boundary at which an earlier-applied patch
+    ended in an unconditional transfer followed only by CFI directives?"""
+    from .. import vocab
+    e = case["edits"][eid]
+    for k, o in enumerate(case["edits"]):
+        if k == eid or o.get("op") not in ("ins", "rep") or \
+                o.get("b") != e.get("b") or "lines" not in o.get("p", {}):
+            continue
+        if o["i"] + o.get("n", 0) != e["i"] or not (
+                (o["i"], k) < (e["i"], eid)):
+            continue
+        lines = o["p"]["lines"]
+        last_i = max((j for j, ln in enumerate(lines)
+                      if "k" in ln and ln["k"] != "bytes"), default=None)
+        if last_i is None:
+            continue
+        kind = vocab.VOCAB[case["isa"]][lines[last_i]["k"]]["kind"]
+        if kind in ("jmp", "ret", "ijmp", "halt") and any(
+                "raw" in ln for ln in lines[last_i + 1:]):
+            return True
+    return False
 
 
 def module_locations(bu, ob):
@@ -321,6 +350,9 @@ def run_case(case):
             pctx = ""
             if prev_block_end_edited(case, lst0, b):
                 pctx = ":block-start-after-edit-at-previous-block-end"
+            elif after_patch_with_trailing_directives(case, t.patch):
+                pctx = (":after-patch-leaving-through-a-jump-with-trailing-"
+                        "directives")
             if (was is None) != (now is None):
                 viol.append({
                     "key": "cfi:patch-instruction-" + (
